@@ -520,11 +520,32 @@ def gen_serde_scripts(tier, seed, variant):
     n = 40 if tier == "quick" else 150
     return "".join(gen_serde.make_script(rng, f"d{seed}_{i}") for i in range(n))
 
+def c20_zst_probe(run):
+    """Zero-sized and one-byte element types (the scripted element kinds start at 16 bytes): `hbx serdezst`
+    deserialises HashSet / HashMap / deserialize_in_place from inputs of 0..3 elements claiming lengths up
+    to usize::MAX; capacity and allocation afterwards must be bounded by the constant of `cautious`."""
+    extra = []
+    ok, exe = H.build_harness("sse2-debug")
+    if ok:
+        rc, out = H.sh([exe, "serdezst"], timeout=120)
+        for l in [l for l in out.split("\n") if l.startswith("SERDEZST ")][:3]:
+            fz = H.Finding("A-FAIL", "serde_de probe: " + l.strip(), None, None)
+            fz.replay_hint = "/verif/harness/target-sse2-debug/debug/hbx serdezst   (prints every failing case)"
+            extra.append(fz)
+        m = re.search(r"SERDEZSTSTAT cases=(\d+)", out)
+        run.serdezst_cases = int(m.group(1)) if m else 0
+        if rc != 0 or not m:
+            fz = H.Finding("CRASH", "serde_de probe (hbx serdezst) did not complete (abort on an absurd allocation request?): " + out[-300:].replace("\n", " "), None, None)
+            fz.replay_hint = "/verif/harness/target-sse2-debug/debug/hbx serdezst"
+            extra.append(fz)
+    return extra
+
 def check_c20(run):
+    run.extra_findings = c20_zst_probe(run)
     return script_property(
         run, gen_serde_scripts,
-        relevant=lambda f: f.kind == "CRASH" or (f.kind in ("A-FAIL", "H-FAIL", "B-FAIL") and op_in(f, ("serde_",))),
-        rule="HashMap histories interleaved with serde operations through an in-memory data format: deserialisation from scripted inputs (0..40 pairs with many duplicate keys, claimed size hints none/0/1/../4096/4097/10^6/isize::MAX/usize::MAX, an input error injected at every position or none), round trips of maps with arbitrary histories, HashSet deserialize and deserialize_in_place; the deserialised table must equal bit for bit the extracted model (with_capacity(cautious(hint)) + inserts; on error the partial map is dropped and freed), contents must be last-value-per-key, the first allocation must be bounded regardless of the hint, no leak / double drop on the error paths",
+        relevant=lambda f: f.kind == "CRASH" or (f.kind in ("A-FAIL", "H-FAIL", "B-FAIL") and (op_in(f, ("serde_",)) or "serde_de probe" in f.text)),
+        rule="HashMap histories interleaved with serde operations through an in-memory data format: deserialisation from scripted inputs (0..40 pairs with many duplicate keys, claimed size hints none/0/1/../4096/4097/10^6/isize::MAX/usize::MAX, an input error injected at every position or none), round trips of maps with arbitrary histories, HashSet deserialize and deserialize_in_place; the deserialised table must equal bit for bit the extracted model (with_capacity(cautious(hint)) + inserts; on error the partial map is dropped and freed), contents must be last-value-per-key, the first allocation must be bounded regardless of the hint, no leak / double drop on the error paths; plus a probe (hbx serdezst, 180 cases) of HashSet / HashMap / deserialize_in_place over zero-sized and one-byte element types with 0..3 elements claiming lengths none..usize::MAX: capacity and allocation afterwards are bounded by the constant of `cautious` and nothing panics or aborts",
         nontrivial_keys=("serde_ok_path", "serde_error_path"), thorough_n=1)    # 8192-bucket tables: ~0.1 s per compared step
 
 def gen_par_scripts(tier, seed, variant):
@@ -647,6 +668,7 @@ def gen_table_scripts(tier, seed, variant):
     n = 48 if tier == "quick" else 160
     out = [gen_table.make_script(rng, f"t{seed}_{i}") for i in range(n)]
     out += [gen_table.make_run_script(rng, f"v{seed}_{i}") for i in range(n // 2)]
+    out += [gen_table.make_last_script(rng, f"vl{seed}_{i}") for i in range(n // 2)]
     return "".join(out)
 
 def gen_layout_scripts(tier, seed, variant):
